@@ -26,7 +26,9 @@ from harness.vlib import coq_str, coq_z
 # config:      {"plain": bool (class Config: instead of class Config(BaseConfig):),
 #               "inherit": None | class name (class Config(<name>.Config):), and per option None = not written:
 #               "aliases": {name: alias}|None, "allow": bool|None, "forbid": bool|None}
-# level:       {"cls": "A"|"B"|"K", "decls": [declaration...], "config": None | config}
+# level:       {"cls": "A"|"B"|"K", "decls": [declaration...], "config": None | config,
+#               "hook": None | [("drop", k) | ("put", k, v) | ("rename", a, b)]  (a __pre_deserialize__ classmethod)}
+#               config may carry "dialect_support": True (code_generation_options = [ADD_DIALECT_SUPPORT])
 # class spec:  {"levels": [level...]  (base-most first, K last), "classvar": [name] (ClassVar members of K),
 #               "initvar": [name] (InitVar members of K, with default), "shape": "chain" | "roots" (K(B, A): the
 #               ancestors are unrelated classes), "generic": bool (A is Generic[T], bound to int by its heirs),
@@ -58,8 +60,8 @@ def member_names(spec) -> list:
 
 
 def decl_source(f) -> str:
-    ty = {"int": "T" if f.get("tv") else "int", "any": "Any", "optint": "Optional[int]",
-          "nested": "Optional[N]" if f["dflt"] == "none" else "N"}[f["ty"]]
+    ty = f["tystr"] if "tystr" in f else {"int": "T" if f.get("tv") else "int", "any": "Any", "optint": "Optional[int]",
+                                         "nested": "Optional[N]" if f["dflt"] == "none" else "N"}[f["ty"]]
     if f["ann"] is not None:
         items = ", ".join(f"Alias({a[1]!r})" if a[0] == "alias" else "'other'" for a in f["ann"])
         ty = f"Annotated[{ty}, {items}]"
@@ -69,7 +71,7 @@ def decl_source(f) -> str:
     if f.get("kw"):
         args.append("kw_only=True")
     if f["dflt"] == "int":
-        args.append(f"default={DEFAULT}")
+        args.append(f"default={f.get('dv', DEFAULT)}")
     elif f["dflt"] == "none":
         args.append("default=None")
     md = {}
@@ -90,15 +92,20 @@ MIXINS = {"dict": "DataClassDictMixin", "json": "DataClassJSONMixin", "orjson": 
 def class_source(spec) -> str:
     """Self-contained Python source: [Base with the Config discriminator,] the ancestors A, B and the class K."""
     L = ["from dataclasses import dataclass, field, InitVar",
-         "from typing import Any, ClassVar, Generic, Optional, TypeVar",
+         "from typing import Any, ClassVar, Dict, Generic, List, Optional, TypeVar",
          "from typing_extensions import Annotated",
          "from mashumaro import DataClassDictMixin",
          "from mashumaro.mixins.json import DataClassJSONMixin",
          "from mashumaro.mixins.orjson import DataClassORJSONMixin",
          "from mashumaro.mixins.msgpack import DataClassMessagePackMixin",
          "from mashumaro.mixins.yaml import DataClassYAMLMixin",
-         "from mashumaro.config import BaseConfig",
+         "from mashumaro.config import BaseConfig, ADD_DIALECT_SUPPORT",
+         "from mashumaro.dialect import Dialect",
          "from mashumaro.types import Alias, Discriminator",
+         "",
+         "class D1(Dialect):",
+         "    serialize_by_alias = True",
+         "    omit_none = True",
          "",
          "T = TypeVar('T')",
          ""]
@@ -124,7 +131,9 @@ def class_source(spec) -> str:
         return levels[j]["cls"] + ("[int]" if generic and j == 0 else "")
 
     for j, lv in enumerate(levels):
-        if spec.get("shape") == "roots" and lv["cls"] == "K":
+        if spec.get("shape") == "diamond":
+            bases = {"A": [root] if root else [], "B": ["A"], "C": ["A"], "K": ["B", "C"]}[lv["cls"]]
+        elif spec.get("shape") == "roots" and lv["cls"] == "K":
             bases = [ref(i) for i in range(j - 1, -1, -1)]            # K(B, A): nearest first
         elif spec.get("shape") == "roots" or j == 0:
             bases = [root] if root else []
@@ -166,8 +175,24 @@ def class_source(spec) -> str:
                 L.append(f"        allow_deserialization_not_by_alias = {c['allow']!r}")
             if c["forbid"] is not None:
                 L.append(f"        forbid_extra_keys = {c['forbid']!r}")
+            if c.get("dialect_support"):
+                L.append("        code_generation_options = [ADD_DIALECT_SUPPORT]")
             if len(L) == n0:
                 L.append("        pass")
+            body += 1
+        if lv.get("hook") is not None:
+            L.append("    @classmethod")
+            L.append("    def __pre_deserialize__(cls, d):")
+            L.append("        d = dict(d)")
+            for op in lv["hook"]:
+                if op[0] == "drop":
+                    L.append(f"        d.pop({op[1]!r}, None)")
+                elif op[0] == "put":
+                    L.append(f"        d[{op[1]!r}] = {op[2]!r}")
+                else:
+                    L.append(f"        if {op[1]!r} in d:")
+                    L.append(f"            d[{op[2]!r}] = d.pop({op[1]!r})")
+            L.append("        return d")
             body += 1
         if not body:
             L.append("    pass")
@@ -195,9 +220,35 @@ def drop_module(mod):
 # the oracle: KEYMODEL written from the property text + dataclass semantics (independent of builder.py)
 # ---------------------------------------------------------------------------
 
+DIAMOND_MRO = {"A": [], "B": ["A"], "C": ["A"], "K": ["B", "C", "A"]}     # checked against the real __mro__
+
+
+def o_fields_diamond(spec, name="K") -> list:
+    """dataclasses: walk the MRO from the far end, every dataclass ancestor contributes its *cumulative* fields, then the
+    own declarations; typing.get_type_hints: the same walk over the own annotations only.  Field data (metadata, default,
+    init) come from the first, the annotation from the second."""
+    own = {lv["cls"]: lv["decls"] for lv in spec["levels"]}
+
+    def cum(c):
+        seen = {}
+        for b in reversed(DIAMOND_MRO[c]):
+            for f in cum(b):
+                seen[f["name"]] = f
+        for f in own[c]:
+            seen[f["name"]] = f
+        return list(seen.values())
+    hints = {}
+    for b in list(reversed(DIAMOND_MRO[name])) + [name]:
+        for f in own[b]:
+            hints[f["name"]] = f
+    return [dict(f, ann=hints[f["name"]]["ann"], ty=hints[f["name"]]["ty"]) for f in cum(name) if f["init"]]
+
+
 def o_fields(spec) -> list:
     """The init fields K has, by dataclass semantics: collected base-most class first; a re-declaration replaces
     the inherited one in place (dict insertion order); init=False members are not constructor parameters."""
+    if spec.get("shape") == "diamond":
+        return o_fields_diamond(spec)
     seen = {}
     for lv in spec["levels"]:
         for f in lv["decls"]:
@@ -206,6 +257,14 @@ def o_fields(spec) -> list:
 
 
 DEFAULT_CFG = {"aliases": {}, "allow": False, "forbid": False}
+
+
+def o_config_raw(spec):
+    """the nearest Config declaration (for options that are not part of the key rules)"""
+    for lv in reversed(spec["levels"]):
+        if lv["config"] is not None:
+            return lv["config"]
+    return None
 
 
 def o_config(spec) -> dict:
@@ -219,6 +278,38 @@ def o_config(spec) -> dict:
         base = cur if c["inherit"] is not None else DEFAULT_CFG
         cur = {k: (c[k] if c[k] is not None else base[k]) for k in ("aliases", "allow", "forbid")}
     return cur
+
+
+def o_hook(spec):
+    """__pre_deserialize__ is found by attribute lookup: the nearest class that defines one"""
+    for lv in reversed(spec["levels"]):
+        if lv.get("hook") is not None:
+            return lv["hook"]
+    return None
+
+
+def o_apply_hook(spec, d: dict) -> dict:
+    h = o_hook(spec)
+    if h is None:
+        return d
+    items = list(d.items())
+    for op in h:
+        if op[0] == "drop":
+            items = [(k, v) for k, v in items if k != op[1] or type(k) is not type(op[1])]
+        elif op[0] == "put":
+            if any(k == op[1] and type(k) is type(op[1]) for k, _ in items):
+                items = [(k, op[2] if (k == op[1] and type(k) is type(op[1])) else v) for k, v in items]
+            else:
+                items.append((op[1], op[2]))
+        else:
+            hit = [v for k, v in items if k == op[1] and type(k) is type(op[1])]
+            if hit:
+                items = [(k, v) for k, v in items if not (k == op[1] and type(k) is type(op[1]))]
+                if any(k == op[2] and type(k) is type(op[2]) for k, _ in items):
+                    items = [(k, hit[0] if (k == op[2] and type(k) is type(op[2])) else v) for k, v in items]
+                else:
+                    items.append((op[2], hit[0]))
+    return dict(items)
 
 
 def o_alias(spec, f):
@@ -250,7 +341,7 @@ def o_accepted(spec):
 
 
 def o_default(f):
-    return {"int": DEFAULT, "none": None}[f["dflt"]]
+    return {"int": f.get("dv", DEFAULT), "none": None}[f["dflt"]]
 
 
 def o_keymodel(spec, d: dict):
@@ -276,9 +367,10 @@ def o_keymodel(spec, d: dict):
 # running the real implementation
 # ---------------------------------------------------------------------------
 
-def observe(spec, call, d: dict):
+def observe(spec, call, d: dict, seen=None):
     """Canonical outcome of call(d): ("inst", [(fname, value)]) | ("missing", fname)
-    | ("extra", [keys in input order]) | ("exc", text)."""
+    | ("extra", [keys in input order]) | ("exc", text).  seen: the mapping the key rules see (after a pre-hook)."""
+    seen = d if seen is None else seen
     from mashumaro.exceptions import ExtraKeysError, MissingField
     try:
         obj = call(dict(d))
@@ -288,9 +380,9 @@ def observe(spec, call, d: dict):
             ekl = list(ek)
         except TypeError:
             return ("exc", f"ExtraKeysError.extra_keys not iterable: {ek!r}")
-        if len(set(ekl)) != len(ekl) or any(k not in d for k in ekl):
+        if len(set(ekl)) != len(ekl) or any(k not in seen for k in ekl):
             return ("exc", f"ExtraKeysError.extra_keys {ek!r} is not a set of input keys")
-        return ("extra", [k for k in d if k in ek])
+        return ("extra", [k for k in seen if k in ek])
     except MissingField as e:
         return ("missing", e.field_name)
     except Exception as e:  # anything else is never expected here
@@ -340,6 +432,10 @@ def entries(spec, mod):
     elif m == "yaml":
         out.append(("K.from_yaml", lambda d: K.from_yaml(yaml.safe_dump(d)), True))
     out.append(("BasicDecoder(K).decode", BasicDecoder(K).decode, False))
+    # a dialect never changes which key a field is read from
+    out.append(("BasicDecoder(K, default_dialect=D1).decode", BasicDecoder(K, default_dialect=mod.D1).decode, False))
+    if m and (o_config_raw(spec) or {}).get("dialect_support"):
+        out.append(("K.from_dict(dialect=D1)", lambda d: K.from_dict(d, dialect=mod.D1), False))
     jd, od, md, yd = JSONDecoder(K), ORJSONDecoder(K), MessagePackDecoder(K), YAMLDecoder(K)
     out.append(("JSONDecoder(K).decode", lambda d: jd.decode(json.dumps(d)), True))
     out.append(("ORJSONDecoder(K).decode", lambda d: od.decode(orjson.dumps(d)), True))
@@ -515,6 +611,28 @@ def gen_spec(rng, force=None):
                                 "allow": (rng.random() < 0.5) if rng.random() < written else None,
                                 "forbid": (rng.random() < 0.5) if rng.random() < written else None}
                 lower = j
+    # __pre_deserialize__ hooks: K or an ancestor rewrites the mapping first (a farther one is shadowed)
+    if "allow" not in force and rng.random() < 0.3:
+        pool = names + [a for a in all_alias_strings({"levels": levels}) if a is not None] + ["q", "old", "None", 1, None]
+
+        def ops():
+            out = []
+            for _ in range(rng.choice([1, 1, 2, 3])):
+                r = rng.random()
+                if r < 0.3:
+                    out.append(("drop", rng.choice(pool)))
+                elif r < 0.5:
+                    out.append(("put", rng.choice(pool), 900 + len(out)))
+                else:
+                    a, b = rng.choice(pool), rng.choice(pool)
+                    out.append(("rename", a, b))
+            return out
+        hl = rng.randrange(depth)
+        levels[hl]["hook"] = ops()
+        if hl > 0 and rng.random() < 0.4:
+            levels[rng.randrange(hl)]["hook"] = ops()
+    if levels[-1]["config"] is not None and levels[-1]["config"]["inherit"] is None and rng.random() < 0.35:
+        levels[-1]["config"]["dialect_support"] = True
     return {"levels": levels, "classvar": classvar, "initvar": initvar, "shape": shape, "generic": generic, "discr": discr,
             "mixin": force["mixin"] if "mixin" in force else rng.choice([None, None, "dict", "dict", "json", "orjson", "msgpack", "yaml"])}
 
@@ -648,6 +766,17 @@ def c_spec(spec) -> str:
     return f"[{'; '.join(lv_txt)}]"
 
 
+def c_hooks(spec) -> str:
+    def op(o):
+        if o[0] == "drop":
+            return f"HDrop {c_key(o[1])}"
+        if o[0] == "put":
+            return f"HPut {c_key(o[1])} {coq_z(o[2])}"
+        return f"HRename {c_key(o[1])} {c_key(o[2])}"
+    return "[" + "; ".join("None" if lv.get("hook") is None else "(Some [" + "; ".join(op(o) for o in lv["hook"]) + "])"
+                           for lv in spec["levels"]) + "]"
+
+
 def c_val(v) -> str:
     return coq_z(NONE_CODE if v is None else v)
 
@@ -678,7 +807,7 @@ def c_obs(o) -> str:
     return '(VMissing "<unexpected exception>")'     # never equal to a model outcome (no such field name)
 
 
-CASE_TYPE = "list level * option (option string) * list Z * dict * observation"
+CASE_TYPE = "list level * list (option (list hookop)) * option (option string) * list Z * dict * observation"
 
 
 def coq_check(name, model, items, ok_fun, ctx, shard=500, ctype=CASE_TYPE):
@@ -858,7 +987,7 @@ def nested_stream(ctx, rng, k4_ok):
     from mashumaro.codecs import BasicDecoder
     from mashumaro.codecs.json import JSONDecoder
     items, shown = [], []
-    n_cls = ctx.budget(40, 200)
+    n_cls = ctx.budget(40, 110)
     for ci in range(n_cls):
         spec = gen_nested(rng)
         src = class_source(spec)
@@ -972,13 +1101,472 @@ def nested_stream(ctx, rng, k4_ok):
             ctx.not_shown("correspondence " + name, det)
 
 
+
+
+# ---------------------------------------------------------------------------
+# dataclass-typed fields at any depth and inside Optional / List / Dict[str, .]
+# ---------------------------------------------------------------------------
+# type codes: ("scalar",) | ("cls", name) | ("opt", t) | ("list", t) | ("map", t)
+
+def ty_str(t) -> str:
+    return {"scalar": lambda: "Any", "cls": lambda: t[1], "opt": lambda: f"Optional[{ty_str(t[1])}]",
+            "list": lambda: f"List[{ty_str(t[1])}]", "map": lambda: f"Dict[str, {ty_str(t[1])}]"}[t[0]]()
+
+
+def ty_coq(t, idx) -> str:
+    if t[0] == "scalar":
+        return "TScalar"
+    if t[0] == "cls":
+        return f"(TCls {idx[t[1]]})"
+    return "(" + {"opt": "TOpt", "list": "TList", "map": "TMap"}[t[0]] + " " + ty_coq(t[1], idx) + ")"
+
+
+def gen_deep(rng):
+    def decl(n, t, dflt, tag, scalar_ty):
+        meta = rng.choice([None, f"m{tag}_{n}", "s1"]) if rng.random() < 0.6 else None
+        ann = [("alias", rng.choice([f"a{tag}_{n}", "s2"]))] if rng.random() < 0.25 else None
+        d = {"name": n, "meta": meta, "ann": ann, "init": True, "dflt": dflt, "ty": scalar_ty, "mo": False, "kw": False,
+             "tv": False, "t": t}
+        if t[0] != "scalar":
+            d["tystr"] = ty_str(t)
+        return d
+
+    def cfg(names, tag):
+        return {"plain": False, "inherit": None,
+                "aliases": {n: rng.choice([f"c{tag}_{n}", "s1", "s2"]) for n in names if rng.random() < 0.4},
+                "allow": rng.random() < 0.5, "forbid": rng.random() < 0.5}
+
+    def wrap(base):
+        r = rng.random()
+        if r < 0.3:
+            return base
+        if r < 0.5:
+            return ("opt", base)
+        if r < 0.75:
+            return ("list", base)
+        if r < 0.9:
+            return ("map", base)
+        return rng.choice([("list", ("opt", base)), ("map", ("list", base)), ("opt", ("list", base))])
+
+    def mk(cname, names, types, scalar_ty, inner):
+        k = rng.randrange(len(names) + 1)
+        decls = []
+        for i, (n, t) in enumerate(zip(names, types)):
+            has_d = i >= len(names) - k
+            if t[0] == "scalar":
+                dflt = "int" if has_d else None
+            else:
+                dflt = "none" if (has_d and t[0] == "opt") else None
+                if has_d and dflt is None:
+                    k = len(names) - i - 1        # no default here: the following ones keep theirs
+            decls.append(decl(n, t, dflt, cname.lower(), scalar_ty))
+        # dataclass rule: no field without default after one with default
+        seen = False
+        for f in decls:
+            if f["dflt"] is not None:
+                seen = True
+            elif seen:
+                for g in decls:
+                    g["dflt"] = None
+                break
+        return {"levels": [{"cls": cname, "decls": decls, "config": cfg(names, cname.lower())}], "classvar": [], "initvar": [],
+                "shape": "chain", "generic": False, "discr": None, "mixin": rng.choice([None, "dict"]), "inner": inner}
+    n2 = mk("N2", ["r", "s"][:rng.choice([1, 2])], [("scalar",)] * 2, "int", None)
+    n1_names = ["p", "q"][:rng.choice([1, 2, 2])]
+    n1_types = [rng.choice([("scalar",), wrap(("cls", "N2"))]) for _ in n1_names]
+    n1 = mk("N1", n1_names, n1_types, "int", n2)
+    k_names = NAMES[:rng.choice([1, 2, 2, 3])]
+    k_types = [rng.choice([("scalar",), wrap(("cls", "N1")), wrap(("cls", "N1")), wrap(("cls", "N2"))]) for _ in k_names]
+    if all(t[0] == "scalar" for t in k_types):
+        k_types[0] = wrap(("cls", "N1"))
+    top = mk("K", k_names, k_types, "any", n1)
+    top["mixin"] = rng.choice([None, "dict", "json"])
+    return top
+
+
+def deep_classes(spec) -> dict:
+    out = {}
+    sp = spec
+    while sp is not None:
+        out[sp["levels"][0]["cls"]] = sp
+        sp = sp.get("inner")
+    return out
+
+
+def o_deep(classes, cname, d, top=True):
+    """every class applies its own key rules to the mapping it is given; what sits under the chosen key is decoded by the
+    field type; below the outermost class every failure is just a failure (InvalidFieldValue of the outermost field)"""
+    spec = classes[cname]
+    if not isinstance(d, dict):
+        return ("fail",)
+    acc = o_accepted(spec)
+    extra = [k for k in d if k not in acc]
+    if o_config(spec)["forbid"] and extra:
+        return ("extra", extra) if top else ("fail",)
+    vals = []
+    for f in o_fields(spec):
+        for k in o_candidates(spec, f):
+            if k in d:
+                ok, v = o_deep_value(classes, f["t"], d[k])
+                if not ok:
+                    return ("invalid", f["name"]) if top else ("fail",)
+                vals.append((f["name"], v))
+                break
+        else:
+            if f["dflt"] is None:
+                return ("missing", f["name"]) if top else ("fail",)
+            vals.append((f["name"], o_default(f)))
+    return ("inst", vals)
+
+
+def o_deep_value(classes, t, v):
+    if t[0] == "scalar":
+        return (type(v) is int or v is None), v
+    if t[0] == "cls":
+        r = o_deep(classes, t[1], v, top=False)
+        return (r[0] == "inst"), (("obj", t[1], r[1]) if r[0] == "inst" else None)
+    if t[0] == "opt":
+        return (True, None) if v is None else o_deep_value(classes, t[1], v)
+    if t[0] == "list":
+        if isinstance(v, dict) and not v:
+            return True, ("list", [])           # any empty iterable is an empty list (a type question, not a key question)
+        if not isinstance(v, list):
+            return False, None
+        rs = [o_deep_value(classes, t[1], x) for x in v]
+        return all(a for a, _ in rs), ("list", [b for _, b in rs])
+    if not isinstance(v, dict):
+        return False, None
+    rs = [(k, o_deep_value(classes, t[1], x)) for k, x in v.items()]
+    return all(a for _, (a, _) in rs), ("map", [(k, b) for k, (_, b) in rs])
+
+
+def gen_deep_value(classes, t, rng, depth=0):
+    if t[0] == "scalar":
+        return rng.randrange(300, 400)
+    r = rng.random()
+    if r < 0.06:
+        return rng.choice([rng.randrange(300, 400), None, [], {}])          # often not what the type wants
+    if t[0] == "opt":
+        return None if rng.random() < 0.3 else gen_deep_value(classes, t[1], rng, depth)
+    if t[0] == "list":
+        return [gen_deep_value(classes, t[1], rng, depth) for _ in range(rng.choice([0, 1, 1, 2]))]
+    if t[0] == "map":
+        ks = rng.sample(["k1", "k2", "s1", "r", "x"], rng.choice([0, 1, 1, 2]))
+        return {k: gen_deep_value(classes, t[1], rng, depth) for k in ks}
+    return gen_deep_dict(classes, t[1], rng, depth + 1)
+
+
+def gen_deep_dict(classes, cname, rng, depth=0, keys=None):
+    spec = classes[cname]
+    if keys is None:
+        keys = [k for k in candidate_keys(spec, rng, limit=6) if isinstance(k, str)]
+        if rng.random() < 0.6:
+            # a mapping the class accepts: the first candidate of every field, nothing else
+            keys = []
+            for f in o_fields(spec):
+                k0 = o_candidates(spec, f)[0]
+                if k0 not in keys:
+                    keys.append(k0)
+        else:
+            keys = [k for k in keys if rng.random() < 0.65]
+    rng.shuffle(keys)
+    role = {}
+    for f in o_fields(spec):
+        for k in o_candidates(spec, f):
+            role.setdefault(k, []).append(f["t"])
+    d = {}
+    for k in keys:
+        ts = role.get(k, [])
+        if len(ts) == 1 or (ts and all(t == ts[0] for t in ts)):
+            d[k] = gen_deep_value(classes, ts[0], rng, depth)
+        else:
+            d[k] = rng.randrange(300, 400)          # strangers and keys shared by fields of different types
+    return d
+
+
+def deep_obs(v):
+    import dataclasses
+    if dataclasses.is_dataclass(v) and not isinstance(v, type):
+        return ("obj", type(v).__name__, [(f.name, deep_obs(getattr(v, f.name))) for f in dataclasses.fields(v)])
+    if isinstance(v, list):
+        return ("list", [deep_obs(x) for x in v])
+    if isinstance(v, dict):
+        return ("map", [(k, deep_obs(x)) for k, x in v.items()])
+    return v
+
+
+def observe_deep(call, d):
+    from mashumaro.exceptions import ExtraKeysError, InvalidFieldValue, MissingField
+    import copy
+    try:
+        obj = call(copy.deepcopy(d))
+    except ExtraKeysError as e:
+        ek = set(e.extra_keys)
+        if any(k not in d for k in ek):
+            return ("exc", f"ExtraKeysError.extra_keys {ek!r} is not a set of input keys")
+        return ("extra", [k for k in d if k in ek])
+    except MissingField as e:
+        return ("missing", e.field_name)
+    except InvalidFieldValue as e:
+        return ("invalid", e.field_name)
+    except Exception as e:
+        return ("exc", f"{type(e).__name__}: {e}")
+    o = deep_obs(obj)
+    if not (isinstance(o, tuple) and o[0] == "obj" and o[1] == "K"):
+        return ("exc", f"result is {o!r}")
+    return ("inst", o[2])
+
+
+def c_nv(v) -> str:
+    if isinstance(v, dict):
+        return "(VD [" + "; ".join(f"({c_key(k)}, {c_nv(x)})" for k, x in v.items()) + "])"
+    if isinstance(v, list):
+        return "(VL [" + "; ".join(c_nv(x) for x in v) + "])"
+    return f"(VZ {c_val(v)})"
+
+
+def c_rv(v) -> str:
+    if isinstance(v, tuple) and v[0] == "obj":
+        return "(RObj [" + "; ".join(f"({coq_str(n)}, Some {c_rv(x)})" for n, x in v[2]) + "])"
+    if isinstance(v, tuple) and v[0] == "list":
+        return "(RList [" + "; ".join(c_rv(x) for x in v[1]) + "])"
+    if isinstance(v, tuple) and v[0] == "map":
+        return "(RMap [" + "; ".join(f"({c_key(k)}, {c_rv(x)})" for k, x in v[1]) + "])"
+    if v is None or type(v) is int:
+        return f"(RZ {c_val(v)})"
+    return "(RList [RZ 424242])"           # never produced by the model
+
+
+def deep_stream(ctx, rng, k4_ok):
+    import json
+    from mashumaro.codecs import BasicDecoder
+    from mashumaro.codecs.json import JSONDecoder
+    items, shown = [], []
+    order = ["N2", "N1", "K"]
+    idx = {n: i for i, n in enumerate(order)}
+    for ci in range(ctx.budget(40, 130)):
+        spec = gen_deep(rng)
+        classes = deep_classes(spec)
+        src = class_source(spec)
+        try:
+            mod = build_class(src)
+            K = mod.K
+            ents = ([("K.from_dict", K.from_dict)] if spec["mixin"] else []) + [("BasicDecoder(K).decode", BasicDecoder(K).decode)]
+            jd = JSONDecoder(K)
+            ents.append(("JSONDecoder(K).decode", lambda d, jd=jd: jd.decode(json.dumps(d))))
+            if spec["mixin"] == "json":
+                ents.append(("K.from_json", lambda d, K=K: K.from_json(json.dumps(d))))
+        except Exception as e:
+            ctx.fail(f"class creation fails: {type(e).__name__}: {e}",
+                     {"entry": "class-creation", "source": src, "spec": spec, "input": [], "observed": repr(e),
+                      "expected": "classes N2, N1 and K are created"}, {"kind": "class-creation", "exc": type(e).__name__})
+            continue
+        ctx.hist("deep_types", " ".join(sorted({ty_str(f["t"]) for c in classes.values() for f in o_fields(c) if f["t"][0] != "scalar"})))
+        tb = []
+        for n in order:
+            c = classes[n]
+            tys = "; ".join(f"({coq_str(f['name'])}, {ty_coq(f['t'], idx)})" for f in o_fields(c) if f["t"][0] != "scalar")
+            tb.append(f"mkN (class_of {c_spec(c)} None) [{tys}]")
+        dtxt = f"Definition tb{ci} : list ncls := [{'; '.join(tb)}]."
+        dfl = "[" + "; ".join(f"({coq_str(f['name'])}, {c_val(o_default(f))})" for c in classes.values() for f in o_fields(c)
+                              if f["dflt"] is not None) + "]"
+        okeys = [k for k in candidate_keys(spec, rng, limit=6) if isinstance(k, str)]
+        prim = []
+        for f in o_fields(spec):
+            if o_candidates(spec, f)[0] not in prim:
+                prim.append(o_candidates(spec, f)[0])
+        for ks in [prim] * 6 + list(subsets(okeys, rng, ctx.budget(14, 58))):
+            d = gen_deep_dict(classes, "K", rng, keys=list(ks))
+            exp = o_deep(classes, "K", d)
+            obs0 = None
+            for ename, call in ents:
+                obs = observe_deep(call, d)
+                ctx.count(("deep", ci, repr(d), ename))
+                ctx.hist("outcome", obs[0] + " (deep stream)")
+                obs0 = obs if obs0 is None else obs0
+                if obs != exp:
+                    ctx.fail(f"{ename}({d!r}) -> {obs!r}, KEYMODEL says {exp!r}",
+                             dict(replay_of(spec, src, ename, {}, obs, exp), input_deep=d),
+                             {"kind": "nested-key-resolution", "observed": obs[0], "expected": exp[0]})
+            if obs0[0] == "inst":
+                co = "(DInst [" + "; ".join(f"({coq_str(n)}, Some {c_rv(v)})" for n, v in obs0[1]) + "])"
+            elif obs0[0] == "missing":
+                co = f"(DMissing {coq_str(obs0[1])})"
+            elif obs0[0] == "invalid":
+                co = f"(DInvalid {coq_str(obs0[1])})"
+            elif obs0[0] == "extra":
+                co = "(DExtra [" + "; ".join(c_key(k) for k in obs0[1]) + "])"
+            else:
+                co = '(DMissing "<unexpected exception>")'
+            items.append((ci, dtxt, f"(tb{ci}, {dfl}, [" + "; ".join(f"({c_key(k)}, {c_nv(v)})" for k, v in d.items()) + f"], {co})"))
+            shown.append((src, d, obs0))
+        drop_module(mod)
+    okb = ("fun c => match c with (tb, dfl, d, o) => doutcome_eqb (dfl_of dfl) (deep_impl 12 tb 2 d) o "
+           "&& doutcome_eqb (dfl_of dfl) (deep_ref 12 tb 2 d) o end")
+    ctype = "list ncls * list (string * Z) * list (key * nv) * doutcome"
+    if k4_ok:
+        bad, log = coq_check("c09_deep", ("KeyModel KeyImpl KeyProofs KeyNested KeyDeep PyK_alias", "From VerifGen Require Import K4.",
+                                          ["theories/KeyDeep.vo"]), items, okb, ctx, ctype=ctype, shard=250)
+    else:
+        bad, log = None, "kernel K4 did not translate (KeyDeep is built on it)"
+    name = "deep: deep_impl(K4)/deep_ref-vs-from_dict"
+    if bad is None:
+        ctx.correspondence(name, len(items), -1, log)
+        ctx.not_shown("correspondence " + name, log)
+    else:
+        det = "" if not bad else f"{len(bad)} cases, first: input {shown[bad[0]][1]!r}: implementation {shown[bad[0]][2]!r}\n{shown[bad[0]][0]}"
+        ctx.correspondence(name, len(items), len(bad), det)
+        if bad:
+            ctx.not_shown("correspondence " + name, det)
+
+
+# ---------------------------------------------------------------------------
+# the class table with the real MROs: CPython's dataclass walk / get_type_hints vs KeyDc
+# ---------------------------------------------------------------------------
+
+def c_table(spec, mod) -> str:
+    names = [lv["cls"] for lv in spec["levels"]]
+    rows = []
+    for lv in spec["levels"]:
+        cls = getattr(mod, lv["cls"])
+        mro = [names.index(c.__name__) for c in cls.__mro__[1:] if c.__module__ == mod.__name__ and c.__name__ in names]
+        decls = "; ".join(f"({c_fld(f)}, {vlib.coq_bool(f['init'])})" for f in lv["decls"])
+        rows.append(f"mkPC [{decls}] [{'; '.join(f'{i}%nat' for i in mro)}]")
+    return "[" + "; ".join(rows) + "]"
+
+
+def dc_views(spec, mod):
+    """per class: (index, real __dataclass_fields__ as [(name, metadata alias, init)], real type hints as
+    [(name, last Alias of the annotation)]) as Coq terms"""
+    import dataclasses
+    import typing_extensions
+    from mashumaro.types import Alias
+    out = []
+    for j, lv in enumerate(spec["levels"]):
+        cls = getattr(mod, lv["cls"])
+        fl = [(n, f) for n, f in cls.__dataclass_fields__.items() if f._field_type is dataclasses._FIELD]
+        fs = "[" + "; ".join(f"({coq_str(n)}, {c_ostr(f.metadata.get('alias'))}, {vlib.coq_bool(f.init)})" for n, f in fl) + "]"
+        hints = typing_extensions.get_type_hints(cls, include_extras=True)
+        hv = []
+        for n, _ in fl:
+            al = [a.name for a in getattr(hints.get(n), "__metadata__", ()) if isinstance(a, Alias)]
+            hv.append(f"({coq_str(n)}, {c_ostr(al[-1] if al else None)})")
+        out.append((j, fs, "[" + "; ".join(hv) + "]"))
+    return out
+
+
+def gen_diamond(rng):
+    """A; B(A); C(A); K(B, C) -- every class may (re-)declare x, y, z with its own alias sources and default value"""
+    dv = {"A": -1, "B": -2, "C": -3, "K": -4}
+    levels = []
+    for c in ("A", "B", "C", "K"):
+        decls = []
+        for n in NAMES:
+            if rng.random() < (0.7 if c == "A" else 0.4):
+                meta = rng.choice([None, f"m{c}_{n}", "s1"])
+                ann = rng.choice([None, None, [("alias", f"a{c}_{n}")], [("other",)], [("alias", "s2"), ("other",)]])
+                decls.append({"name": n, "meta": meta, "ann": ann, "init": rng.random() < 0.9, "dflt": "int", "dv": dv[c],
+                              "ty": "any", "mo": False, "kw": False, "tv": False})
+        levels.append({"cls": c, "decls": decls, "config": None})
+    alias_names = NAMES
+    levels[-1]["config"] = {"plain": False, "inherit": None,
+                            "aliases": {n: f"c_{n}" for n in alias_names if rng.random() < 0.4},
+                            "allow": rng.random() < 0.5, "forbid": rng.random() < 0.5}
+    return {"levels": levels, "classvar": [], "initvar": [], "shape": "diamond", "generic": False, "discr": None,
+            "mixin": rng.choice([None, "dict"])}
+
+
+def diamond_stream(ctx, rng, k4_ok, dc_items, dc_shown):
+    from mashumaro.codecs import BasicDecoder
+    items, shown = [], []
+    for ci in range(ctx.budget(40, 90)):
+        spec = gen_diamond(rng)
+        src = class_source(spec)
+        try:
+            mod = build_class(src)
+            K = mod.K
+            ents = ([("K.from_dict", K.from_dict)] if spec["mixin"] else []) + [("BasicDecoder(K).decode", BasicDecoder(K).decode)]
+        except Exception as e:
+            ctx.fail(f"class creation fails: {type(e).__name__}: {e}",
+                     {"entry": "class-creation", "source": src, "spec": spec, "input": [], "observed": repr(e),
+                      "expected": "the classes are created"}, {"kind": "class-creation", "exc": type(e).__name__})
+            continue
+        real_mro = {c: [b.__name__ for b in getattr(mod, c).__mro__[1:] if b.__name__ in DIAMOND_MRO] for c in DIAMOND_MRO}
+        if real_mro != DIAMOND_MRO:
+            ctx.not_shown("diamond MRO", f"expected {DIAMOND_MRO}, Python says {real_mro}")
+            continue
+        tbl = c_table(spec, mod)
+        for j, fs, hv in dc_views(spec, mod):
+            k = len(dc_items)
+            dc_items.append((f"d{ci}", f"Definition td{ci} : list pyclassdef := {tbl}.", f"(td{ci}, {j}%nat, {fs}, {hv})"))
+            dc_shown.append((src, spec["levels"][j]["cls"], fs, hv))
+        fields = o_fields(spec)
+        ctx.hist("diamond", f"fields={len(fields)} redeclared_in_C={sum(1 for f in spec['levels'][2]['decls'] if any(g['name'] == f['name'] for g in spec['levels'][0]['decls']))}")
+        keys = candidate_keys(spec, rng, limit=7)
+        cfg = spec["levels"][-1]["config"]
+        g = f"(mkCfg {c_aliases(cfg['aliases'])} {vlib.coq_bool(cfg['allow'])} {vlib.coq_bool(cfg['forbid'])})"
+        dfl = c_defaults(spec)
+        for ks in subsets(keys, rng, ctx.budget(24, 64)):
+            d = make_dict(ks, keys, rng)
+            exp = o_keymodel(spec, d)
+            obs0 = None
+            for ename, call in ents:
+                obs = observe(spec, call, d)
+                ctx.count(("diamond", ci, repr(sorted(map(repr, d.items()))), ename))
+                ctx.hist("outcome", obs[0] + " (diamond stream)")
+                obs0 = obs if obs0 is None else obs0
+                if obs != exp:
+                    ctx.fail(f"{ename}({d!r}) -> {obs!r}, KEYMODEL says {exp!r}",
+                             replay_of(spec, src, ename, d, obs, exp),
+                             {"kind": "key-resolution", "observed": obs[0], "expected": exp[0]})
+            items.append((f"d{ci}", f"Definition td{ci} : list pyclassdef := {tbl}.", f"(td{ci}, {g}, {dfl}, {c_dict(d)}, {c_obs(obs0)})"))
+            shown.append((src, d, obs0))
+        drop_module(mod)
+    okf = ("fun c => match c with (cs, g, dfl, d, o) => let cl := dc_class cs 3 g None in "
+           "observation_eqb (observe dfl (keymodel cl d)) o && "
+           "match impl_from_dict cl d with Ok r => observation_eqb (observe dfl r) o | Raise _ => false end end")
+    okr = ("fun c => match c with (cs, g, dfl, d, o) => observation_eqb (observe dfl (keymodel (dc_class cs 3 g None) d)) o end")
+    ctype = "list pyclassdef * cfg * list Z * dict * observation"
+    if k4_ok:
+        bad, log = coq_check("c09_diamond", ("KeyModel KeyImpl KeyDc PyK_alias", "From VerifGen Require Import K4.",
+                                             ["theories/KeyImpl.vo", "theories/KeyDc.vo"]), items, okf, ctx, ctype=ctype)
+    else:
+        bad, log = coq_check("c09_diamond", ("KeyModel KeyDc", "", ["theories/KeyDc.vo"]), items, okr, ctx, ctype=ctype)
+    name = "diamond: impl(K4)/keymodel on dc_class-vs-from_dict"
+    if bad is None:
+        ctx.correspondence(name, len(items), -1, log)
+        ctx.not_shown("correspondence " + name, log)
+    else:
+        det = "" if not bad else f"{len(bad)} cases, first: input {shown[bad[0]][1]!r}: implementation {shown[bad[0]][2]!r}\n{shown[bad[0]][0]}"
+        ctx.correspondence(name, len(items), len(bad), det)
+        if bad:
+            ctx.not_shown("correspondence " + name, det)
+
+
+def dc_check(ctx, dc_items, dc_shown):
+    okf = ("fun c => match c with (cs, j, fs, hv) => view_eqb (decl_view (nth j (dc_table cs []) [])) fs "
+           "&& hview_eqb (hints_alias_view cs j (map (fun p => fst (fst p)) fs)) hv end")
+    bad, log = coq_check("c09_dc", ("KeyModel KeyDc", "", ["theories/KeyDc.vo"]), dc_items, okf, ctx,
+                         ctype="list pyclassdef * nat * list (string * option string * bool) * list (string * option string)")
+    name = "dc_table/class_hints-vs-__dataclass_fields__/get_type_hints"
+    if bad is None:
+        ctx.correspondence(name, len(dc_items), -1, log)
+        ctx.not_shown("correspondence " + name, log)
+    else:
+        det = "" if not bad else f"{len(bad)} cases, first: class {dc_shown[bad[0]][1]}: real {dc_shown[bad[0]][2]} hints {dc_shown[bad[0]][3]}\n{dc_shown[bad[0]][0]}"
+        ctx.correspondence(name, len(dc_items), len(bad), det)
+        if bad:
+            ctx.not_shown("correspondence " + name, det)
+
+
 # ---------------------------------------------------------------------------
 # the check
 # ---------------------------------------------------------------------------
 
 THEOREMS = ["K4_precedence", "K4_key_plan", "K4_allowed_keys", "C09_impl_is_code", "C09_keys", "C09_keys_hier",
             "C09_nearest_declaration", "C09_nearest_config", "C09_get_config", "C09_builder_config", "C09_fields_unique", "C09_alias_from_sources",
-            "C09_mro_chain", "C09_mro_roots", "C09_own_view_finished", "C09_own_view_raw", "C09_nested", "C09_nested_inner_options",
+            "C09_mro_chain", "C09_mro_roots", "C09_own_view_finished", "C09_own_view_raw", "C09_nested", "C09_nested_inner_options", "C09_pre_hook", "C09_nearest_hook", "C09_hook_rename",
+            "C09_dc_lookup", "C09_dc_chain", "C09_dc_roots", "C09_dataclass_fields_dc", "C09_deep", "C09_deep_list", "C09_deep_map_keys",
             "C09_field_key", "C09_outcome", "C09_alias_wins", "C09_fallback", "C09_accepted_covers_reads",
             "C09_reads_allowed", "C09_extra_members", "C09_extra_exact", "C09_ignored", "C09_forbidden_reported"]
 
@@ -1059,7 +1647,10 @@ def run(ctx: vlib.Ctx):
     if k4_ok:
         kernel_validation(ctx, rng)
     nested_stream(ctx, rng, k4_ok)
-    n_classes = ctx.budget(200, 320)
+    deep_stream(ctx, rng, k4_ok)
+    dc_items, dc_shown = [], []
+    diamond_stream(ctx, rng, k4_ok, dc_items, dc_shown)
+    n_classes = ctx.budget(200, 230)
     sub_max = ctx.budget(32, 256)
     forced = [{"allow": a, "forbid": b, "mixin": m, "nf": nf, "depth": dp} for a in (False, True) for b in (False, True)
               for m in (None, "dict") for nf, dp in ((1, 1), (2, 3))]
@@ -1100,6 +1691,13 @@ def run(ctx: vlib.Ctx):
             ctx.fail(f"CodeBuilder view fails: {type(e).__name__}: {e}",
                      {"entry": "class-creation", "source": src, "spec": spec, "input": [], "observed": repr(e),
                       "expected": "CodeBuilder(cls).dataclass_fields / get_config()"}, {"kind": "class-creation", "exc": type(e).__name__})
+        try:
+            tbl = c_table(spec, mod)
+            for j, fs, hv in dc_views(spec, mod):
+                dc_items.append((f"m{ci}", f"Definition tm{ci} : list pyclassdef := {tbl}.", f"(tm{ci}, {j}%nat, {fs}, {hv})"))
+                dc_shown.append((src, spec["levels"][j]["cls"], fs, hv))
+        except Exception as e:
+            ctx.not_shown("dataclass views", f"{type(e).__name__}: {e}")
         keys = candidate_keys(spec, rng)
         fields = o_fields(spec)
         cfgv = o_config(spec)
@@ -1123,6 +1721,8 @@ def run(ctx: vlib.Ctx):
                                      f"ClassVar:{len(spec['classvar'])} InitVar:{len(spec['initvar'])} "
                                      f"kw_only:{sum(1 for f in fields if f['kw'])}")
         nullable = nullable_class(spec)
+        hooked = o_hook(spec) is not None
+        ctx.hist("pre_hook", "none" if not hooked else f"ops={len(o_hook(spec))} in {'K' if spec['levels'][-1].get('hook') is not None else 'ancestor'}")
         ctx.hist("values", "ints and None" if nullable else "ints")
         coq_defs.append(f"Definition c{ci} : list level := {c_spec(spec)}.")
         dfl = c_defaults(spec)
@@ -1134,7 +1734,8 @@ def run(ctx: vlib.Ctx):
         dicts += boundary_dicts(spec)
         for d in dicts:
             ks = list(d)
-            exp = o_keymodel(spec, d)
+            dh = o_apply_hook(spec, d)                # what the keys are resolved on
+            exp = o_keymodel(spec, dh)
             obs_all = []
             for ename, call, need_str in ents:
                 if need_str and not str_keys(d):
@@ -1142,12 +1743,14 @@ def run(ctx: vlib.Ctx):
                 via_base = "Base" in ename
                 dd = d
                 if via_base:
+                    if hooked:
+                        continue                      # the dispatcher reads the tag before K's hook runs
                     if spec["discr"][1] not in d:
                         continue                      # MissingDiscriminatorError: not a key-resolution case
                     # the tag key is accepted and never read: same outcome as K's own entry point on d
                     dd = dict(d)
                     dd[spec["discr"][1]] = TAG
-                obs = observe(spec, call, dd)
+                obs = observe(spec, call, dd, seen=dh if hooked else None)
                 ctx.count((ci, repr(sorted(d.items(), key=repr)), ename))
                 ctx.hist("outcome", obs[0] + (" (via Base)" if via_base else ""))
                 ctx.hist("entry", ename)
@@ -1161,22 +1764,22 @@ def run(ctx: vlib.Ctx):
                              {"kind": kind, "observed": obs[0], "expected": exp[0]})
             # all entry points agree? (if not, the oracle has already flagged at least one of them)
             obs0 = obs_all[0]
-            coq_cases.append((ci, coq_defs[-1], f"(c{ci}, {c_discr(spec)}, {dfl}, {c_dict(d)}, {c_obs(obs0)})"))
+            coq_cases.append((ci, coq_defs[-1], f"(c{ci}, {c_hooks(spec)}, {c_discr(spec)}, {dfl}, {c_dict(d)}, {c_obs(obs0)})"))
             cases.append((spec, src, ents[0][0], d, obs0))
             if len(ctx.coverage["samples"]) < 6 and len(ks) >= 2 and rng.random() < 0.01:
                 ctx.sample({"class": src, "input": repr(d), "observed": repr(obs0)})
         drop_module(mod)
 
     # ---- correspondence: Coq models vs the real implementation, same cases
-    ok_impl = ("fun c => match c with (h, dk, dfl, d, o) => match impl_from_hier h dk d with "
+    ok_impl = ("fun c => match c with (h, hk, dk, dfl, d, o) => match impl_hooked hk h dk d with "
                "Ok r => observation_eqb (observe dfl r) o | Raise _ => false end end")
-    ok_ref = ("fun c => match c with (h, dk, dfl, d, o) => "
-              "observation_eqb (observe dfl (keymodel (class_of h dk) d)) o end")
-    ok_both = ("fun c => match c with (h, dk, dfl, d, o) => match impl_from_hier h dk d with "
+    ok_ref = ("fun c => match c with (h, hk, dk, dfl, d, o) => "
+              "observation_eqb (observe dfl (keymodel (class_of h dk) (apply_hook (nearest_hook hk) d))) o end")
+    ok_both = ("fun c => match c with (h, hk, dk, dfl, d, o) => match impl_hooked hk h dk d with "
                "Ok r => observation_eqb (observe dfl r) o | Raise _ => false end "
-               "&& observation_eqb (observe dfl (keymodel (class_of h dk) d)) o end")
-    IMPL = ("KeyModel KeyImpl KeyProofs KeyCfg PyK_alias", "From VerifGen Require Import K4.", ["theories/KeyCfg.vo"])
-    REF = ("KeyModel", "", ["theories/KeyModel.vo"])
+               "&& observation_eqb (observe dfl (keymodel (class_of h dk) (apply_hook (nearest_hook hk) d))) o end")
+    IMPL = ("KeyModel KeyImpl KeyProofs KeyCfg KeyRewrite KeyHook PyK_alias", "From VerifGen Require Import K4.", ["theories/KeyHook.vo"])
+    REF = ("KeyModel KeyRewrite", "", ["theories/KeyRewrite.vo"])
 
     def report(name, bad, log, n):
         if bad is None:
@@ -1215,6 +1818,7 @@ def run(ctx: vlib.Ctx):
         report(n_ref, bad, log, n_dom)
     ctx.notes.append(f"oracle mismatches (incl. listed findings): {n_mismatch_oracle}")
 
+    dc_check(ctx, dc_items, dc_shown)
     # ---- the modelled Python / dataclasses semantics and CodeBuilder's own view of the classes
     okv = ("fun c => match c with (h, hc, fs, g) => view_eqb (decl_view (collect h)) fs && cfg_eqb (nearest_cfg hc) g end")
     src_model = REF
@@ -1267,6 +1871,26 @@ def replay(rep: dict) -> int:
         print("classes, decoders and builder views are created")
         print("not reproduced")
         return 0
+    if "input_deep" in rep:
+        from mashumaro.codecs import BasicDecoder
+        sp = spec
+        while sp is not None:
+            norm_spec(sp)
+            for f in sp["levels"][0]["decls"]:
+                def tup(t):
+                    return tuple(tup(x) if isinstance(x, list) else x for x in t)
+                f["t"] = tup(f["t"])
+            sp = sp.get("inner")
+        d = rep["input_deep"]
+        call = mod.K.from_dict if rep["entry"] == "K.from_dict" else BasicDecoder(mod.K).decode
+        obs = observe_deep(call, d)
+        exp = o_deep(deep_classes(spec), "K", d)
+        def norm(o):
+            return json.loads(json.dumps(o))
+        import json
+        print(rep["source"]); print("input   ", d); print("observed", obs); print("expected", exp)
+        print("REPRODUCED" if norm(obs) != norm(exp) else "not reproduced")
+        return 1 if norm(obs) != norm(exp) else 0
     if "input_nested" in rep:
         from mashumaro.codecs import BasicDecoder
         d = {unjson_key(k): ({unjson_key(a): b for a, b in v["dict"]} if isinstance(v, dict) else v) for k, v in rep["input_nested"]}
@@ -1285,8 +1909,9 @@ def replay(rep: dict) -> int:
     if call is None:
         print("unknown entry", rep["entry"])
         return 2
-    obs = observe(spec, call, d)
-    exp = o_keymodel(spec, d)
+    dh = o_apply_hook(spec, d)
+    obs = observe(spec, call, d, seen=dh)
+    exp = o_keymodel(spec, dh)
     print(rep["source"])
     print("entry   ", rep["entry"])
     print("input   ", d)
